@@ -30,15 +30,56 @@ Definition uses_conf (p : path) : bool :=
 (* Number of confirmations of block [blk] when the head is [head]. *)
 Definition confirmations (head blk : Z) : Z := head - blk + 1.
 
-(* The specification used as judge on what the implementation did (handled = the event of block
-   [blk] was turned into messages / handed to the deposit processing). *)
-Definition single_ok (p : path) (head blk conf : Z) (handled : bool) : bool :=
-  (* safety, every path *)
-  (if handled then (if uses_conf p then conf <=? confirmations head blk else blk <=? head) else true)
+(* ---- the domain of each path's inputs -------------------------------------------------------
+   The guards are modelled over unbounded Z.  The Go values they are computed from live in these
+   types (the correspondence run generates exactly these domains, up to and beyond every width
+   boundary; nothing the types can hold is excluded):
+     BtcScan      head  int64 (btcjson block.Height)     start block, conf  *big.Int (any integer)
+     EvmRetryTx   head, receipt block, conf              *big.Int (any integer)
+     EvmRetryMsg  head, retry height, conf               *big.Int (any integer)
+     BtcRetryMsg  head  int64                            retry height, conf *big.Int (any integer)
+     SubRetryMsg  head  uint32 (types.BlockNumber)       retry height       *big.Int (any integer)
+     SubRetryEvt  head  uint32                           deposit_on_block_height  u128 (0 .. 2^128-1)
+   Not representable, hence not generated: BTC heads outside int64, Substrate finalized heads
+   outside uint32, a negative or >= 2^128 u128 height.  (The configuration loader additionally
+   restricts BTC confirmations to 1 .. 2^63-1; the handlers themselves take any *big.Int.) *)
+Definition in_int64 (x : Z) : bool := (- 2 ^ 63 <=? x) && (x <? 2 ^ 63).
+Definition in_uint32 (x : Z) : bool := (0 <=? x) && (x <? 2 ^ 32).
+Definition in_u128 (x : Z) : bool := (0 <=? x) && (x <? 2 ^ 128).
+
+Definition in_domain (p : path) (head blk : Z) : bool :=
+  match p with
+  | BtcScan | BtcRetryMsg => in_int64 head
+  | EvmRetryTx | EvmRetryMsg => true
+  | SubRetryMsg => in_uint32 head
+  | SubRetryEvt => in_uint32 head && in_u128 blk
+  end.
+
+(* [buried p head b conf]: block [b] may be relayed on path [p] when the head is [head]. *)
+Definition buried (p : path) (head b conf : Z) : bool :=
+  if uses_conf p then conf <=? confirmations head b else b <=? head.
+
+(* What an accepting guard hands to the deposit processing: the two retry-by-height handlers that
+   go through DepositProcessor.ProcessDeposits(start, end) pass the height as both ends of the
+   range; the others process the one block (BTC: HandleEvents(block) / ProcessDeposits(height);
+   Substrate retry event: GetBlockHash(height.Uint64()) - see [sub_evt_fetch_exact] in the proofs:
+   whenever the guard accepts an in-domain height the conversion is exact; EVM retry by
+   transaction hash: the receipt's own block). *)
+Definition range_path (p : path) : bool :=
+  match p with EvmRetryMsg | SubRetryMsg => true | _ => false end.
+
+Definition processed (p : path) (head blk conf : Z) : list Z :=
+  if accept p head blk conf then (if range_path p then [blk; blk] else [blk]) else [].
+
+(* The specification used as judge on what the implementation did ([blocks] = the block numbers
+   whose events it turned into messages / handed to the deposit processing; empty = nothing). *)
+Definition single_ok (p : path) (head blk conf : Z) (blocks : list Z) : bool :=
+  (* safety, every path: every processed block is buried deep enough *)
+  forallb (fun b => buried p head b conf) blocks
   &&
   (* liveness, regular scan only: one confirmation more than required is enough *)
   (match p with
-   | BtcScan => if conf + 1 <=? confirmations head blk then handled else true
+   | BtcScan => if conf + 1 <=? confirmations head blk then existsb (Z.eqb blk) blocks else true
    | _ => true
    end).
 
